@@ -671,3 +671,9 @@ PROPS["C16"]["suites"] += [{"name": "static", "quick": 800, "thorough": 15000}]
 # C07 "every command kind of every handle type": effect handles (fxa/fxb drive every effect's setters through the
 # real command channels).
 PROPS["C07"]["suites"] += [{"name": "fxa", "quick": 600, "thorough": 10000}, {"name": "fxb", "quick": 600, "thorough": 10000}]
+# C07 "any handle, at any nesting depth": the handles of effects nested in delay feedback loops
+# (`DelayBuilder::add_feedback_effect`) are kept and driven by suite `syscore` (`fx.sub`, mirrored by the twin;
+# oracle-only op `nest`: a user-defined command probe and a volume control at depth 1–3).
+PROPS["C07"]["suites"] += [{"name": "syscore", "quick": 250, "thorough": 4000}]
+# C06 "every tween of every parameter": the delay's and the reverb's parameters (suite `fxb`: tween-timing family, `twchk`).
+PROPS["C06"]["suites"] += [{"name": "fxb", "quick": 800, "thorough": 15000}]
